@@ -20,21 +20,21 @@ Section Calls.
     is_dir (f_heap (fst (create_dir s0 v p n perm))) (snd (create_dir s0 v p n perm)).
   Proof.
     intros I0 Hp Hn. cbn [create_dir fst snd f_heap].
-    destruct (Inv_heap_create (f_heap s0) p n (NDir [] (new_meta v (dir_mode (v_os v)) perm)) I0 Hp Hn) as [H1 H2].
-    { split; auto. }
+    match goal with |- context [f_heap s0 ++ [?x]] =>
+      destruct (Inv_heap_create (f_heap s0) p n x I0 Hp Hn) as [H1 H2]; [split; auto|] end.
     split; [split; auto|].
     unfold is_dir. rewrite add_child_kind, node_is_dir_app, Nat.ltb_irrefl, Nat.eqb_refl. reflexivity.
   Qed.
 
   Lemma mkdir_ok name perm : step_ok s (fst (mkdir s v name perm)).
   Proof.
-    unfold mkdir. destruct name as [|b name]; [now apply step_ok_refl|].
-    set (r := search_node s v (b :: name) SlEval).
-    pose proof (srch (b :: name) SlEval ltac:(discriminate)) as HP. fold r in HP.
-    destruct (negb (is_not_exist (sr_err r)) || negb (pi_is_last (sr_pi r))); [now apply step_ok_refl|].
+    unfold mkdir. destruct name as [|b name]; [stay|].
+    set (r := search_node s v (b :: name) SlLstat).
+    pose proof (srch (b :: name) SlLstat ltac:(discriminate)) as HP. fold r in HP.
+    destruct (negb (is_not_exist (sr_err r)) || negb (pi_is_last (sr_pi r))); [stay|].
     destruct (search_post_parent _ _ HP) as (p & Hp1 & Hp2). rewrite Hp1.
-    destruct (negb (perm_on (f_heap s) p (N.lor OpenWrite OpenLookup) (v_user v))); [now apply step_ok_refl|].
-    destruct (alk (pi_part (sr_pi r)) (children (f_heap s) p)) eqn:E; [now apply step_ok_refl|].
+    destruct (negb (perm_on (f_heap s) p (N.lor OpenWrite OpenLookup) (v_user v))); [stay|].
+    destruct (alk (pi_part (sr_pi r)) (children (f_heap s) p)) eqn:E; [stay|].
     cbn [fst]. now apply create_dir_ok.
   Qed.
 
@@ -42,8 +42,8 @@ Section Calls.
     Inv_heap (f_heap s0) -> is_dir (f_heap s0) dn ->
     step_ok s0 (mkdir_all_loop fuel s0 v dn pi perm).
   Proof.
-    induction fuel as [|f IHf]; intros s0 dn pi I0 Hd; cbn [mkdir_all_loop]; [now apply step_ok_refl|].
-    destruct (alk (pi_part pi) (children (f_heap s0) dn)) eqn:E; [now apply step_ok_refl|].
+    induction fuel as [|f IHf]; intros s0 dn pi I0 Hd; cbn [mkdir_all_loop]; [stay|].
+    destruct (alk (pi_part pi) (children (f_heap s0) dn)) eqn:E; [stay|].
     destruct (create_dir_ok s0 dn (pi_part pi) perm I0 Hd E) as [H1 H2].
     destruct (create_dir s0 v dn (pi_part pi) perm) as [s1 c]. cbn [fst snd] in H1, H2.
     destruct (pi_next (v_os v) pi) as [ok pi1]. destruct ok; auto.
@@ -60,11 +60,11 @@ Section Calls.
                                then (s, RFail EPermDenied)
                                else (mkdir_all_loop (S (length (pi_path (sr_pi r)))) s v p (sr_pi r) perm, ROk)))).
     { destruct (negb (perm_on (f_heap s) p (N.lor OpenWrite OpenLookup) (v_user v))); cbn [fst];
-        [now apply step_ok_refl | now apply mkdir_all_loop_ok]. }
+        [stay | now apply mkdir_all_loop_ok]. }
     destruct (sr_child r) as [c|]; [|exact Hloop].
     destruct (get (f_heap s) c) as [[ch m|dt k id m|lk m]|]; try exact Hloop.
-    - destruct (is_file_exists (sr_err r)); now apply step_ok_refl.
-    - now apply step_ok_refl.
+    - destruct (is_file_exists (sr_err r)); stay.
+    - stay.
   Qed.
 
   Lemma symlink_ok oldname newname : step_ok s (fst (symlink s v oldname newname)).
@@ -72,10 +72,10 @@ Section Calls.
     unfold symlink.
     set (r := search_node s v newname SlLstat).
     pose proof (srch newname SlLstat ltac:(discriminate)) as HP. fold r in HP.
-    destruct (is_not_exist (sr_err r)) eqn:Ene; cbn [negb orb]; [|now apply step_ok_refl].
-    destruct (negb (pi_is_last (sr_pi r))); [now apply step_ok_refl|].
+    destruct (is_not_exist (sr_err r)) eqn:Ene; cbn [negb orb]; [|stay].
+    destruct (negb (pi_is_last (sr_pi r))); [stay|].
     destruct (search_post_not_exist _ _ HP Ene) as (p & Hp1 & Hp2 & _ & Hn). rewrite Hp1.
-    destruct (negb (perm_on (f_heap s) p OpenWrite (v_user v))); [now apply step_ok_refl|].
+    destruct (negb (perm_on (f_heap s) p OpenWrite (v_user v))); [stay|].
     cbn [fst create_symlink]. split; [|split]; cbn [f_heap f_vols]; auto;
       eapply Inv_heap_create; eauto; split; auto.
   Qed.
@@ -84,49 +84,49 @@ Section Calls.
   Proof.
     unfold link.
     set (ro := search_node s v oldname SlLstat).
-    destruct (sr_child ro) as [oc|]; [|now apply step_ok_refl].
-    destruct (negb (is_file_exists (sr_err ro))); [now apply step_ok_refl|].
+    destruct (sr_child ro) as [oc|]; [|stay].
+    destruct (negb (is_file_exists (sr_err ro))); [stay|].
     set (rn := search_node s v newname SlLstat).
     pose proof (srch newname SlLstat ltac:(discriminate)) as HP. fold rn in HP.
-    destruct (is_not_exist (sr_err rn)) eqn:Ene; cbn [negb]; [|now apply step_ok_refl].
-    destruct (negb (pi_is_last (sr_pi rn))); [now apply step_ok_refl|].
+    destruct (is_not_exist (sr_err rn)) eqn:Ene; cbn [negb]; [|stay].
+    destruct (negb (pi_is_last (sr_pi rn))); [stay|].
     destruct (search_post_not_exist _ _ HP Ene) as (p & Hp1 & Hp2 & _ & Hn). rewrite Hp1.
-    destruct (negb (perm_on (f_heap s) p OpenWrite (v_user v))); [now apply step_ok_refl|].
-    destruct (get (f_heap s) oc) as [[ch m|dt k id m|lk m]|] eqn:Eg; try now apply step_ok_refl.
+    destruct (negb (perm_on (f_heap s) p OpenWrite (v_user v))); [stay|].
+    destruct (get (f_heap s) oc) as [[ch m|dt k id m|lk m]|] eqn:Eg; try stay.
     cbn [fst]. apply step_ok_with_heap. now apply Inv_heap_link.
   Qed.
 
   (* ---- leaf updates --------------------------------------------------------------- *)
   Lemma truncate_ok name size : step_ok s (fst (truncate s v name size)).
   Proof.
-    unfold truncate.
-    destruct (negb (is_file_exists (sr_err (search_node s v name SlEval)))); [now apply step_ok_refl|].
-    destruct (sr_child (search_node s v name SlEval)) as [c|]; [|now apply step_ok_refl].
-    destruct (get (f_heap s) c) as [[ch m|dt k id m|lk m]|] eqn:Eg; try now apply step_ok_refl.
-    destruct (Z.ltb size 0); [now apply step_ok_refl|].
+    unfold truncate. destruct (Z.ltb size 0 && negb (win v)); [stay|].
+    destruct (negb (is_file_exists (sr_err (search_node s v name SlEval)))); [stay|].
+    destruct (sr_child (search_node s v name SlEval)) as [c|]; [|stay].
+    destruct (get (f_heap s) c) as [[ch m|dt k id m|lk m]|] eqn:Eg; try stay.
+    destruct (Z.ltb size 0); [stay|].
     cbn [fst]. apply step_ok_with_heap. eapply Inv_heap_set_data; eauto.
   Qed.
 
   Lemma chmod_ok name mode : step_ok s (fst (chmod s v name mode)).
   Proof.
     unfold chmod.
-    destruct (sr_child (search_node s v name SlEval)) as [c|]; [|now apply step_ok_refl].
-    destruct (negb (is_file_exists (sr_err (search_node s v name SlEval)))); [now apply step_ok_refl|].
-    destruct (get (f_heap s) c) as [n|] eqn:Eg; [|now apply step_ok_refl].
-    destruct n as [ch m|dt k id m|lk m]; try now apply step_ok_refl.
-    - destruct (set_mode_ok (node_meta (NDir ch m)) (v_user v)); [|now apply step_ok_refl].
+    destruct (sr_child (search_node s v name SlEval)) as [c|]; [|stay].
+    destruct (negb (is_file_exists (sr_err (search_node s v name SlEval)))); [stay|].
+    destruct (get (f_heap s) c) as [n|] eqn:Eg; [|stay].
+    destruct n as [ch m|dt k id m|lk m]; try stay.
+    - destruct (set_mode_ok (node_meta (NDir ch m)) (v_user v)); [|stay].
       cbn [fst]. apply step_ok_with_heap. now apply Inv_heap_set_meta.
-    - destruct (set_mode_ok (node_meta (NFile dt k id m)) (v_user v)); [|now apply step_ok_refl].
+    - destruct (set_mode_ok (node_meta (NFile dt k id m)) (v_user v)); [|stay].
       cbn [fst]. apply step_ok_with_heap. now apply Inv_heap_set_meta.
   Qed.
 
   Lemma chown_gen_ok slm name uid gid : step_ok s (fst (chown_gen slm s v name uid gid)).
   Proof.
     unfold chown_gen.
-    destruct ((v_idm v && negb (us_admin (v_user v))) || win v); [now apply step_ok_refl|].
-    destruct (sr_child (search_node s v name slm)) as [c|]; [|now apply step_ok_refl].
-    destruct (negb (is_file_exists (sr_err (search_node s v name slm)))); [now apply step_ok_refl|].
-    destruct (get (f_heap s) c) as [n|] eqn:Eg; [|now apply step_ok_refl].
+    destruct ((v_idm v && negb (us_admin (v_user v))) || win v); [stay|].
+    destruct (sr_child (search_node s v name slm)) as [c|]; [|stay].
+    destruct (negb (is_file_exists (sr_err (search_node s v name slm)))); [stay|].
+    destruct (get (f_heap s) c) as [n|] eqn:Eg; [|stay].
     cbn [fst]. apply step_ok_with_heap. now apply Inv_heap_set_meta.
   Qed.
 
@@ -136,11 +136,11 @@ Section Calls.
     unfold remove.
     set (r := search_node s v name SlLstat).
     pose proof (srch name SlLstat ltac:(discriminate)) as HP. fold r in HP.
-    destruct (sr_child r) as [c|] eqn:Ec; [|now apply step_ok_refl].
-    destruct (sr_parent r) as [p|] eqn:Ep; [|now apply step_ok_refl].
-    destruct (is_file_exists (sr_err r)) eqn:Efe; cbn [negb]; [|now apply step_ok_refl].
-    destruct (Nat.eqb_spec p c) as [->|Hpc]; [now apply step_ok_refl|].
-    destruct (negb (perm_on (f_heap s) p OpenWrite (v_user v))); [now apply step_ok_refl|].
+    destruct (sr_child r) as [c|] eqn:Ec; [|stay].
+    destruct (sr_parent r) as [p|] eqn:Ep; [|stay].
+    destruct (is_file_exists (sr_err r)) eqn:Efe; cbn [negb]; [|stay].
+    destruct (Nat.eqb_spec p c) as [->|Hpc]; [stay|].
+    destruct (negb (perm_on (f_heap s) p OpenWrite (v_user v))); [stay|].
     destruct (search_post_child _ _ c HP Ec) as (p' & Hp1 & Hp2 & Hlk).
     assert (p' = p) by congruence. subst p'.
     destruct Hlk as [->|Hlk]; [congruence|].
@@ -152,7 +152,7 @@ Section Calls.
     { intros Hleaf. rewrite Hlk. cbn [fst]. apply step_ok_with_heap. now apply Inv_heap_unlink. }
     destruct (get (f_heap s) c) as [[[|e ch] m|dt k id m|lk m]|] eqn:Eg;
       try (apply Hgo; rewrite children_get, Eg; reflexivity).
-    now apply step_ok_refl.
+    stay.
   Qed.
   (* ---- OpenFile, WriteFile ------------------------------------------------------------ *)
   (* the local function open_existing of open_file *)
@@ -166,7 +166,8 @@ Section Calls.
           let at_ := if has om OpenAppend then Z.of_nat (length d1) else 0%Z in
           (with_heap s (upd (f_heap s) c (NFile d1 k i m)), inr (new_handle c vi name at_ om))
     | Some (NDir _ m) =>
-        if has om OpenWrite then (s, inl (RFail EIsADirectory))
+        if has om OpenCreateExcl then (s, inl (RFail EFileExists))
+        else if has om OpenWrite then (s, inl (RFail EIsADirectory))
         else if negb (check_permission m om (v_user v)) then (s, inl (RFail EPermDenied))
         else (s, inr (new_handle c vi name 0 om))
     | _ => (s, inr (new_handle c vi name 0 om))
@@ -175,9 +176,15 @@ Section Calls.
   Lemma open_file_unfold vi name flag perm :
     open_file s v vi name flag perm =
     let om := to_open_mode flag in
-    let r := search_node s v name SlEval in
+    let r := search_node s v name (if has om OpenCreateExcl then SlLstat else SlEval) in
     let e := sr_err r in
     if (negb (is_file_exists e) && negb (is_not_exist e)) || negb (pi_is_last (sr_pi r)) then (s, inl (RFail e))
+    else if is_file_exists e && has om OpenCreateExcl
+            && match sr_child r with
+               | Some c => match get (f_heap s) c with Some (NSym _ _) => true | _ => false end
+               | None => false
+               end
+    then (s, inl (RFail e))
     else
       if is_not_exist e then
         if negb (has om OpenCreate) then (s, inl (RFail e))
@@ -212,7 +219,8 @@ Section Calls.
     assert (Hh : open_post (s, inr (new_handle c vi name 0 om))).
     { split; [stay|]. cbn [snd fst]. intros f [= <-] c'. cbn [new_handle hd_node]. now intros [= <-]. }
     destruct (get (f_heap s) c) as [[ch m|d k i m|lk m]|] eqn:Eg; try exact Hh.
-    - destruct (has om OpenWrite); [apply open_post_stay|].
+    - destruct (has om OpenCreateExcl); [apply open_post_stay|].
+      destruct (has om OpenWrite); [apply open_post_stay|].
       destruct (negb (check_permission m om (v_user v))); [apply open_post_stay | exact Hh].
     - destruct (negb (check_permission m om (v_user v))); [apply open_post_stay|].
       destruct (has om OpenCreateExcl); [apply open_post_stay|].
@@ -226,9 +234,13 @@ Section Calls.
   Lemma open_file_ok vi name flag perm : open_post (open_file s v vi name flag perm).
   Proof.
     rewrite open_file_unfold. cbv zeta.
-    set (r := search_node s v name SlEval).
-    pose proof (srch name SlEval ltac:(discriminate)) as HP. fold r in HP.
+    set (slm := if has (to_open_mode flag) OpenCreateExcl then SlLstat else SlEval).
+    assert (Hslm : slm <> SlStat) by (unfold slm; destruct (has (to_open_mode flag) OpenCreateExcl); discriminate).
+    set (r := search_node s v name slm).
+    pose proof (srch name slm Hslm) as HP. fold r in HP.
     destruct ((negb (is_file_exists (sr_err r)) && negb (is_not_exist (sr_err r))) || negb (pi_is_last (sr_pi r)));
+      [apply open_post_stay|].
+    match goal with |- context [if ?b then (s, inl (RFail (sr_err r))) else _] => destruct b end;
       [apply open_post_stay|].
     destruct (is_not_exist (sr_err r)) eqn:Ene.
     - destruct (negb (has (to_open_mode flag) OpenCreate)); [apply open_post_stay|].
